@@ -225,7 +225,8 @@ def build(ctx):
                 bounds={"modes": n, "parameters": d, "features": kind, "theta": "[-2, 2]"}, validate_points=2)
     st_cases = [(1, "identity", [[0], [1], [2], [3]]), (2, "identity", [[0, 0], [1, 1], [2, 0]])]
     if th:
-        st_cases += [(2, "identity", [[0, 2], [1, 0], [2, 2], [3, 1]]), (1, "fixed", [[0], [4]]), (2, "fixed", [[1, 1], [0, 2]])]
+        # (N=2 with non-identity fixed features: the queries need the 10-minute portfolio -> outside)
+        st_cases += [(2, "identity", [[0, 2], [1, 0], [2, 2], [3, 1]]), (1, "fixed", [[0], [4]])]
     for i, (N, kind, samples) in enumerate(st_cases):
         ctx.add("stochastic.N%d.%s.%d" % (N, kind, i), h_stochastic, {"N": N, "kind": kind, "samples": samples}, modules=mods,
                 functions=fns_t, bounds={"modes": N, "features": kind, "samples": samples, "theta": "[0, 2]",
@@ -234,8 +235,9 @@ def build(ctx):
     for N in (1, 2) + ((3,) if th else ()):
         ctx.add("moments.N%d" % N, h_moments, {"N": N, "kind": "identity"}, modules=mods, functions=fns_t,
                 bounds={"modes": N, "theta": "[0, 2]"}, validate_points=2)
-        ctx.add("clicks.N%d" % N, h_clicks, {"N": N, "kind": "identity"}, modules=mods, functions=fns_t,
-                bounds={"modes": N, "theta": "[0, 2]"}, validate_points=2)
+        if N <= 2:      # (N=3: the 2x2 determinant of the reduced Q matrix is not syntactically real in the symbolic stack)
+            ctx.add("clicks.N%d" % N, h_clicks, {"N": N, "kind": "identity"}, modules=mods, functions=fns_t,
+                    bounds={"modes": N, "theta": "[0, 2]"}, validate_points=2)
     fns_q = ["apps.qchem.dynamics.TimeEvolution", "TimeEvolution._decompose", "ops.Rgate", "GaussianBackend.rotation"]
     for n in (1, 2) + ((3,) if th else ()):
         for via in ("direct", "compile"):
